@@ -1,2 +1,2 @@
-import Vita.C11.DriverLib
-def main : IO Unit := Vita.C11.Drv.driverMain
+import Vita.C11.DriverMore
+def main : IO Unit := Vita.C11.Drv2.driverMain2
